@@ -680,6 +680,68 @@ pub fn c03_case(fam: &str, idx: usize, seed: u64) -> Option<Case> {
             let desc = format!("{} size={} primitives {:?} at e{} from {:?} faults=[{}]", k.describe(), size, seq, who, trig, rules_desc(&sc.rules));
             Some(Case::from(sc, &k, desc, false))
         }
+        "late" => {
+            // PDUs that arrive late in every state a transaction can be in: something (a dropped kind, a cut, a
+            // user cancel, or nothing) drives the exchange into a limit fault / a cancel / a normal end, and copies of
+            // earlier PDUs of any kind reach an entity at chosen delays after its Fault / Finished / Abandon
+            // indication; plus long-spaced duplicates of every PDU of one kind. Terminating handlers
+            // (cancel / abandon) per condition; a lenient handler exempts only when its condition was declared.
+            let mut rng = Rng::derive(seed, 306, idx as u64);
+            let mut k = rand_knobs(&mut rng, false);
+            let t = C03_TIMERS[rng.usize(C03_TIMERS.len())];
+            k.ti = t.0;
+            k.ta = t.1;
+            k.tn = t.2;
+            k.limit = t.3;
+            k.seg = 32;
+            for c in [Condition::PositiveLimitReached, Condition::NakLimitReached, Condition::InactivityDetected] {
+                match rng.below(8) {
+                    0 | 1 => k.handlers.push((c, FaultHandlerAction::Abandon)),
+                    2 => k.handlers.push((c, FaultHandlerAction::Cancel)),
+                    3 => k.handlers.push((c, if rng.bool() { FaultHandlerAction::Ignore } else { FaultHandlerAction::Suspend })),
+                    _ => {}
+                }
+            }
+            let size = *rng.pick(&[40usize, 100, 200]);
+            let cl = rng.below(5);
+            let c = content(&mut rng, size, cl, 32, 1);
+            let mut sc = two_party(&case, rng.next_u64(), &k, c);
+            let n0 = first_pass_len(size, 32) + 2;
+            let cause = rng.below(8);
+            match cause {
+                0 => sc.rules.push(Rule { from: 0, to: 1, m: Matcher::FdOffset(32 * rng.below((size as u64 + 31) / 32)), a: Action::Drop }),
+                1 => sc.rules.push(Rule { from: 0, to: 1, m: Matcher::FromIdx(1 + rng.usize(n0)), a: Action::Drop }),
+                2 => sc.rules.push(Rule { from: 0, to: 1, m: Matcher::KindAll(Kind::AckFin), a: Action::Drop }),
+                3 => sc.rules.push(Rule { from: 1, to: 0, m: Matcher::KindAll(Kind::AckEof), a: Action::Drop }),
+                4 => sc.rules.push(Rule { from: 1, to: 0, m: Matcher::KindAll(Kind::Finished), a: Action::Drop }),
+                5 => sc.rules.push(Rule { from: 0, to: 1, m: Matcher::KindAll(Kind::Eof), a: Action::Drop }),
+                6 => {
+                    let who = rng.usize(2);
+                    let trig = if rng.bool() { Trigger::AfterEmit(0, rng.usize(n0)) } else { Trigger::AfterArrive(1, rng.usize(n0 - 1)) };
+                    sc.scripts.push(Script { trig, delay_ms: rng.below(3), act: Act::Prim(who, PrimKind::Cancel, 0) });
+                }
+                _ => {}
+            }
+            let kinds = [Kind::Metadata, Kind::FileData, Kind::Eof, Kind::AckEof, Kind::Nak, Kind::Finished, Kind::AckFin, Kind::KeepAlive];
+            let delays = [0u64, 1, 400, 999, 1001, 2500, (k.tn as u64) * 1000 - 1, (k.tn as u64) * 1000 + 1, (k.ta as u64) * 1000 + 1, (k.ti as u64) * 1000 + 1];
+            for _ in 0..(1 + rng.usize(4)) {
+                let x = rng.usize(2);
+                let ik = if x == 0 { *rng.pick(&[IndKind::Fault, IndKind::Finished, IndKind::Fault, IndKind::Abandon, IndKind::EoFSent]) } else { *rng.pick(&[IndKind::Fault, IndKind::Finished, IndKind::Fault, IndKind::Abandon, IndKind::EoFRecv, IndKind::MetadataRecv]) };
+                let kind = if x == 1 { *rng.pick(&[Kind::Metadata, Kind::FileData, Kind::FileData, Kind::Eof, Kind::AckFin]) } else { *rng.pick(&[Kind::AckEof, Kind::Nak, Kind::Finished, Kind::KeepAlive]) };
+                let d = if rng.chance(1, 4) { rng.below(9000) } else { *rng.pick(&delays) };
+                sc.scripts.push(Script { trig: Trigger::AfterInd(x, ik, 0), delay_ms: d, act: Act::RedeliverKind(1 - x, kind, if rng.chance(1, 4) { 1 + rng.usize(2) } else { 0 }) });
+            }
+            if rng.bool() {
+                let from = rng.usize(2);
+                sc.rules.push(Rule { from, to: 1 - from, m: Matcher::KindAll(*rng.pick(&kinds)), a: Action::Dup(1 + rng.below(2) as u32, 300 + rng.below(6000)) });
+            }
+            sc.probe = true;
+            sc.paced = rng.bool();
+            // a late copy may start a new receive transaction up to ~2 limits after the first one ended
+            sc.observe_ms += sc.observe_ms / 2 + 12_000;
+            let desc = format!("{} handlers={:?} size={} cause={} late={:?} faults=[{}]", k.describe(), k.handlers, size, cause, sc.scripts.iter().map(|s| format!("{:?}+{}ms:{:?}", s.trig, s.delay_ms, s.act)).collect::<Vec<_>>(), rules_desc(&sc.rules));
+            Some(Case::from(sc, &k, desc, false))
+        }
         "prompt" => {
             // the sending user prompts (NAK / keep-alive) at arbitrary points, including while the receiver is
             // already waiting for the ACK of its Finished PDU (which the link keeps losing)
@@ -755,6 +817,19 @@ pub fn judge_c03(info: &Info, log: &RunLog, rep: &mut Report) {
         return;
     }
     let mut tasks_judged = 0;
+    {
+        // PDUs delivered more than once (link duplicates and scripted re-deliveries)
+        let mut seen = std::collections::HashSet::new();
+        let mut again = 0u64;
+        for r in &log.recs {
+            if let Ev::Arrive { origin: Some(o), .. } = &r.ev {
+                if !seen.insert(*o) {
+                    again += 1;
+                }
+            }
+        }
+        rep.add("c03_repeated_deliveries", again);
+    }
     for span in &d.tasks {
         // which transfer / entity does this task belong to
         let tr = (0..info.transfers.len()).find(|tr| d.id(*tr) == Some(span.id));
@@ -775,7 +850,8 @@ pub fn judge_c03(info: &Info, log: &RunLog, rep: &mut Report) {
                 Some(ls) => !pr.iter().any(|p| p.0 > ls && p.3 && matches!(p.2, PrimKind::Resume | PrimKind::Cancel)),
             }
         };
-        let lenient_handler = k.handlers.iter().any(|(_, a)| matches!(a, FaultHandlerAction::Ignore | FaultHandlerAction::Suspend));
+        // a limit fault whose configured handler is ignore / suspend was declared on this transaction
+        let lenient_handler = d.faults(ent, span.id).iter().any(|f| k.handlers.iter().any(|(c, a)| *c == f.2.condition && matches!(a, FaultHandlerAction::Ignore | FaultHandlerAction::Suspend)));
         if user_suspended || lenient_handler {
             rep.count("c03_tasks_exempt");
             continue;
@@ -825,7 +901,7 @@ pub fn run_c03(tier: &str, seed: u64, replay: Option<&str>) -> (Meta, Report) {
     let meta = Meta {
         property: "C03",
         level: "fault_enumeration",
-        rule: "blackout = link cut (e0->e1, e1->e0, or both) starting at EVERY emission index of the exchange x {ack, unack, unack+closure} x 4 NAK procedures x timer grid {(Ti,Ta,Tn,L)} x sizes {0, 40, 100} (complete); cancel = user cancel at either entity at a random index followed by a cut; rand = up to 12 random faults plus optional loss of every PDU of one kind; prompt = Prompt(NAK/keep-alive) requests of the sending user at random points, also while the receiver waits for the ACK of a Finished PDU that the link loses or delays; primseq = sequences of user primitives (cancel/suspend/resume/prompt in 8 orders) at either entity at a random point, with the link going dark at a random point; plus the C02 single-fault placements. Every run ends with a probe transfer and Report over a healed link. distinct_nontrivial = distinct (config, size, event-order) signatures among runs where a fault fired and at least one task was judged.".into(),
+        rule: "blackout = link cut (e0->e1, e1->e0, or both) starting at EVERY emission index of the exchange x {ack, unack, unack+closure} x 4 NAK procedures x timer grid {(Ti,Ta,Tn,L)} x sizes {0, 40, 100} (complete); cancel = user cancel at either entity at a random index followed by a cut; rand = up to 12 random faults plus optional loss of every PDU of one kind; prompt = Prompt(NAK/keep-alive) requests of the sending user at random points, also while the receiver waits for the ACK of a Finished PDU that the link loses or delays; primseq = sequences of user primitives (cancel/suspend/resume/prompt in 8 orders) at either entity at a random point, with the link going dark at a random point; late = a fatal cause (one kind of PDU always lost, a cut, a user cancel, or none) with per-condition handlers, then copies of earlier PDUs of any kind delivered at chosen delays after the Fault/Finished/Abandon indication of either entity, plus long-spaced duplicates of every PDU of one kind; plus the C02 single-fault placements. Every run ends with a probe transfer and Report over a healed link. distinct_nontrivial = distinct (config, size, event-order) signatures among runs where a fault fired and at least one task was judged.".into(),
         exhaustive: false,
         assumptions: vec!["timeouts >= 1 s".into(), "bound B = 2L(Ti+Ta+Tn)+d+4D+10 s after the last PDU/primitive delivered to the task; observation window 3B".into(), "task end is observed through the cfg-guarded TaskGuard drop hook (H3), spin through its tick counter".into()],
         require: vec![("c03_tasks_ended_in_bound".into(), 1000), ("c03_probes".into(), 500)],
@@ -850,6 +926,8 @@ pub fn run_c03(tier: &str, seed: u64, replay: Option<&str>) -> (Meta, Report) {
     rep.add("cases:prompt", (nr / 2) as u64);
     rep.merge(run_cases(nr, "c03-primseq", move |i| c03_case("primseq", i, seed), judge_c03));
     rep.add("cases:primseq", nr as u64);
+    rep.merge(run_cases(nr, "c03-late", move |i| c03_case("late", i, seed), judge_c03));
+    rep.add("cases:late", nr as u64);
     let n1 = c02_sys1_space().len();
     let st2 = if thorough { 1 } else { 5 };
     let m2 = n1 / st2;
